@@ -274,6 +274,13 @@ class HarmonicaDesigner(vza.Designer):
     for p_config in problem_statement.search_space.parameters:
       if p_config.external_type != vz.ExternalType.BOOLEAN:
         raise ValueError('Only boolean search spaces are supported.')
+      if p_config.num_feasible_values != 2:
+        # The model only ever proposes 'True' or 'False': a boolean restricted
+        # to a single value would be answered with the excluded one.
+        raise ValueError(
+            'Boolean parameters restricted to a single value are not'
+            f' supported: {p_config.name}'
+        )
 
     self._problem_statement = problem_statement
     self._metric_name = self._problem_statement.metric_information.item().name
